@@ -130,7 +130,7 @@ RetOf(self, ops, st) ==
 (* Execution of one transaction on a world.                                  *)
 (*   tx : [kind, from, to, ckind, ops, lc, gas]                              *)
 (*   kind  "create" | "call"                                                 *)
-(*   ckind (creates) "cell" | "probe" | "bad" | "ctrl"                       *)
+(*   ckind (creates) "cell" | "probe" | "bad" | "ctrl" | "big" (24577 bytes of STOP: over EIP-170, which the engine lifts) *)
 (*   gas   "ample" | "max" (saturated allowance, 2^64-1) | "tiny" (below the intrinsic cost: invalid transaction)  *)
 (*   lc    a ledger call record or NULL (see Ledger section)                 *)
 (* Result: [valid, status, logs, created, world]                             *)
